@@ -23,6 +23,16 @@ _P = None  # property module (inherited by forked workers)
 _FIXED = None
 
 
+def evidence_dir():
+    """Evidence of runs against a scratch copy (VERIF_REPO != /repo) must never overwrite the
+    evidence of /repo itself."""
+    if os.environ.get("VERIF_EVIDENCE_DIR"):
+        return os.path.join(VERIF, os.environ["VERIF_EVIDENCE_DIR"])
+    if os.path.realpath(seams.repo_root()) == "/repo":
+        return os.path.join(VERIF, "evidence")
+    return os.path.join(VERIF, "evidence-scratch")
+
+
 def derive_seed(master, i):
     h = hashlib.blake2b(f"{master}/{i}".encode(), digest_size=8).digest()
     return int.from_bytes(h, "big")
@@ -328,8 +338,8 @@ def run_batch(pid, tier, master, budget_s=None, max_runs=None, workers=None, qui
     wall = time.time() - t0
     ev = build_evidence(P, tier, master, total, wall, len(new_violations), known_lines,
                         reported, harness_error, rand_next, workers)
-    os.makedirs(os.path.join(VERIF, "evidence"), exist_ok=True)
-    with open(os.path.join(VERIF, "evidence", f"{P.ID}.json"), "w") as f:
+    os.makedirs(evidence_dir(), exist_ok=True)
+    with open(os.path.join(evidence_dir(), f"{P.ID}.json"), "w") as f:
         json.dump(ev, f, indent=1, default=str)
 
     if not quiet:
